@@ -27,6 +27,7 @@ type CheckDef struct {
 	Stubs       []string
 	Assumptions []string
 	MinCovers   []string // cover labels that must be reached at least once (vacuity guard)
+	TimeoutMS   int      // per-query solver time limit for the quick tier (0 = default 30 s)
 }
 
 var registry = map[string]*CheckDef{}
@@ -163,7 +164,7 @@ func runCheck(def *CheckDef, tier string, seed int64, repo string, workers int, 
 	}
 	timeout := 30000
 	cross := 0
-	jobBudget := 240 * time.Second
+	jobBudget := 900 * time.Second
 	if tier == "thorough" {
 		jobBudget = 2 * time.Hour
 	}
@@ -182,6 +183,9 @@ func runCheck(def *CheckDef, tier string, seed int64, repo string, workers int, 
 	}
 	if v := os.Getenv("VERIF_CROSS"); v != "" {
 		cross, _ = strconv.Atoi(v)
+	}
+	if def.TimeoutMS > 0 && tier != "thorough" {
+		timeout = def.TimeoutMS
 	}
 	results := make([]*sym.JobResult, len(jobs))
 	var wg sync.WaitGroup
